@@ -3,3 +3,7 @@ import shard_common
 
 def run(ctx):
     shard_common.run(ctx, "C01")
+
+
+def replay(ctx, path):
+    shard_common.replay_file(ctx, "C01", path)
